@@ -735,15 +735,9 @@ impl<'a> Interp<'a> {
                         }
                         self.last_throw = tr;
                     }
-                    if let Err(Ctl::Throw(_)) = &fr {
-                        // an exception raised by the finally block supersedes whatever was pending
-                        return fr;
-                    }
                     if fr.is_err() {
-                        // (X) leaving a finally block by return/break/continue is outside the alphabet
-                        if !matches!(fr, Err(Ctl::Unsupported(_)) | Err(Ctl::Abort(..))) {
-                            return Err(Ctl::Unsupported("abrupt exit from a finally block (X)".into()));
-                        }
+                        // an exception raised by the finally block, or a return / break / continue that
+                        // leaves it, supersedes whatever outcome was waiting for the block to finish
                         return fr;
                     }
                 }
